@@ -562,7 +562,170 @@ def check_reconfigured(spec):
     return fails, info
 
 
-CHECKS = {"named_vs_precomputed": check_named_vs_precomputed, "callable": check_callable, "missing": check_missing,
+# --------------------------------------------------------------------------- parameter dictionaries: any key order, any subset
+def _affinity_of(kind, name, params, X, A_user=None):
+    """the affinity the hyperparameters describe, from scikit-learn called with KEYWORDS (or f(X) / the user's matrix)"""
+    if isinstance(name, dict) and "callable" in name:
+        return fw.CALLABLES_X[name["callable"]](X)
+    if name == "precomputed":
+        return A_user
+    return fw.sk_affinity(kind, name, params, X)
+
+
+def _check_affinity(fails, key, what, got_fn, expected, closed=None):
+    """`got_fn()` must return the expected matrix (1e-10: the same scikit-learn function on the same data; the closed form
+    of the kernel is a second, scikit-learn-free opinion at 1e-8); legal parameters must not be rejected"""
+    try:
+        got = got_fn()
+    except Exception as ex:
+        fails.append({"key": key + ":raised", "what": f"{what} raised {type(ex).__name__}: {str(ex)[:160]}",
+                      "expected": "the scikit-learn affinity", "actual": type(ex).__name__})
+        return None
+    got = np.asarray(got, float)
+    if got.shape != expected.shape or not np.allclose(got, expected, rtol=1e-10, atol=1e-12):
+        worst = float(np.abs(got - expected).max()) if got.shape == expected.shape else float("inf")
+        fails.append({"key": key, "what": f"{what} is not the scikit-learn affinity the parameters describe (max abs difference {worst:.3g})",
+                      "expected": expected[:2].tolist(), "actual": got[:2].tolist()})
+    elif closed is not None and not np.allclose(got, closed, rtol=1e-8, atol=1e-10):
+        fails.append({"key": key + ":closed-form", "what": f"{what} differs from the kernel's formula (max abs difference {float(np.abs(got - closed).max()):.3g})",
+                      "expected": closed[:2].tolist(), "actual": got[:2].tolist()})
+    return got
+
+
+def check_param_order(spec):
+    """kernel_params / metric_params reach scikit-learn BY NAME: the dictionary may list its keys in any order and hold any
+    subset of the function's parameters.  The affinity of the GEMINI object, of the estimator's GEMINI, and the whole
+    named-vs-precomputed comparison, against scikit-learn called with keywords (and the kernel's closed form)."""
+    fails, info = [], {}
+    X = np.array(spec["X"], float)
+    e, kind, name = spec["estimator"], spec["kind"], spec["name"]
+    params = fw.items_dict(spec["items"])
+    A = fw.sk_affinity(kind, name, params, X)
+    closed = fw.closed_form_kernel(name, params, X) if kind == "kernel" else None
+    import gemclus.gemini as G
+    pretty = f"kernel={name!r}, kernel_params={params}" if kind == "kernel" else f"metric={name!r}, metric_params={params}"
+    for ovo in (False, True):
+        mk = ((lambda: G.MMDGEMINI(ovo=ovo, kernel=name, kernel_params=fw.items_dict(spec["items"]))) if kind == "kernel"
+              else (lambda: G.WassersteinGEMINI(ovo=ovo, metric=name, metric_params=fw.items_dict(spec["items"]))))
+        _check_affinity(fails, "param-order:gemini-affinity", f"{'MMDGEMINI' if kind == 'kernel' else 'WassersteinGEMINI'}({pretty}, ovo={ovo}).compute_affinity(X)",
+                        lambda: mk().compute_affinity(X), A, closed)
+    full = dict(spec, params=params)
+    hn = _named_hyper(full)
+    _check_affinity(fails, "param-order:estimator-affinity", f"{e}({pretty}, via {spec.get('via', 'param')}).get_gemini().compute_affinity(X)",
+                    lambda: fw.make(e, hn).get_gemini().compute_affinity(X), A, closed)
+    if not fails:
+        f2, info = check_named_vs_precomputed(full)
+        fails += f2
+    else:
+        # the affinity is already wrong: still show what it does to training (without letting an exception hide the rest)
+        try:
+            f2, info = check_named_vs_precomputed(dict(full, path=False))
+            fails += f2
+        except Exception as ex:
+            fails.append({"key": "param-order:fit-raised", "what": f"{e}({pretty}).fit raised {type(ex).__name__}: {str(ex)[:160]}",
+                          "expected": "a fit", "actual": type(ex).__name__})
+    return fails, info
+
+
+# --------------------------------------------------------------------------- copies of an estimator (clone, deepcopy, pickle ...)
+def _copies(m0, with_pickle):
+    """the ways scikit-learn tooling (GridSearchCV, Pipeline, cross_validate, joblib) duplicates an unfitted estimator"""
+    import copy
+    import pickle
+    from sklearn.base import clone
+    out = [("clone", lambda: clone(m0)), ("clone of clone", lambda: clone(clone(m0))), ("deepcopy", lambda: copy.deepcopy(m0)),
+           ("constructor(**get_params(deep=False))", lambda: type(m0)(**m0.get_params(deep=False))),
+           ("constructor().set_params(**get_params())", lambda: type(m0)().set_params(**m0.get_params()))]
+    if with_pickle:
+        out.append(("pickle round trip", lambda: pickle.loads(pickle.dumps(m0))))
+    return out
+
+
+def _gem_descr(g):
+    d = {"class": type(g).__name__, "evaluate": fw.eval_owner(g)}
+    for a in ("ovo", "epsilon", "kernel", "metric", "kernel_params", "metric_params"):
+        if hasattr(g, a):
+            v = getattr(g, a)
+            d[a] = ("<callable>" if callable(v) else v)
+    return d
+
+
+def check_cloned(spec):
+    """a copy of an (unfitted) estimator made the scikit-learn way behaves exactly like the estimator it was copied from:
+    the same GEMINI (class, one-vs-one flag, epsilon), the same affinity -- the scikit-learn one its kernel / metric and
+    parameter dictionary describe --, the same fitted weights, labels and score for the same random_state; all of it equal
+    to the precomputed route (the documented GEMINI given the scikit-learn matrix)."""
+    fails, info = [], {}
+    X = np.array(spec["X"], float)
+    e, kind, name = spec["estimator"], spec.get("kind"), spec.get("name")
+    params = fw.items_dict(spec.get("items"))
+    hyper = dict(spec["hyper"])
+    hyper.update(_common(spec))
+    A_user = None
+    if name == "precomputed":
+        A_user = fw.sk_affinity(kind, "rbf" if kind == "kernel" else "l1", None, X)
+    A = None if kind is None else _affinity_of(kind, name, params, X, A_user)
+    closed = fw.closed_form_kernel(name, params, X) if (kind == "kernel" and isinstance(name, str)) else None
+    has_callable = isinstance(name, dict)
+    # reference 1: the estimator itself, never copied
+    ref = fw.make(e, hyper)
+    gref = _gem_descr(ref.get_gemini())
+    ref.fit(X, A_user)
+    sref = fw.fitted_state(ref)
+    scref = ref.score(X, A_user)
+    # reference 2 (independent of every forwarding): the documented objective given the scikit-learn matrix
+    spre = None
+    if kind is not None and spec.get("hyper_precomputed") is not None:
+        hp = dict(spec["hyper_precomputed"])
+        hp.update(_common(spec))
+        mp = fw.make(e, hp).fit(X, A)
+        spre, scpre = fw.fitted_state(mp), mp.score(X, A)
+        _cmp(fails, "cloned:original-vs-precomputed", f"{e}: the estimator itself vs the precomputed route", sref, spre)
+    m0 = fw.make(e, hyper)
+    before = _gem_descr(m0.get_gemini())
+    for label, build in _copies(m0, not has_callable):
+        try:
+            m = build()
+        except Exception as ex:
+            fails.append({"key": "cloned:copy-raised", "what": f"{e}: {label} raised {type(ex).__name__}: {str(ex)[:160]}",
+                          "expected": "a copy", "actual": type(ex).__name__})
+            continue
+        info["copies"] = info.get("copies", 0) + 1
+        try:
+            g = m.get_gemini()
+        except Exception as ex:
+            fails.append({"key": "cloned:get_gemini-raised", "what": f"{e}: get_gemini() of the {label} raised {type(ex).__name__}: {str(ex)[:160]}",
+                          "expected": str(gref), "actual": type(ex).__name__})
+            continue
+        gd = _gem_descr(g)
+        for a in ("class", "evaluate", "ovo", "epsilon"):
+            if gd.get(a) != gref.get(a):
+                fails.append({"key": f"cloned:gemini-{a}", "what": f"{e}: the GEMINI of the {label} has {a}={gd.get(a)!r}, the original's has {gref.get(a)!r}",
+                              "expected": str(gref), "actual": str(gd)})
+        if A is not None:
+            _check_affinity(fails, "cloned:affinity", f"{e}: get_gemini().compute_affinity(X) of the {label} ({ {k: v for k, v in gref.items() if k not in ('class', 'evaluate')} })",
+                            lambda: g.compute_affinity(X, A_user), A, closed)
+        try:
+            m.fit(X, A_user)
+            sm, scm = fw.fitted_state(m), m.score(X, A_user)
+        except Exception as ex:
+            fails.append({"key": "cloned:fit-raised", "what": f"{e}: fit / score of the {label} raised {type(ex).__name__}: {str(ex)[:160]}",
+                          "expected": "a fit", "actual": type(ex).__name__})
+            continue
+        _cmp(fails, "cloned:fit", f"{e}: fit of the {label} vs fit of the original ({ {k: v for k, v in gref.items() if k not in ('class', 'evaluate')} })", sref, sm)
+        _cmp(fails, "cloned:score", f"{e}: score of the {label} {scm!r} vs the original's {scref!r}", [("s", scref)], [("s", scm)])
+        if spre is not None:
+            _cmp(fails, "cloned:fit-vs-precomputed", f"{e}: fit of the {label} vs the precomputed route", spre, sm)
+            _cmp(fails, "cloned:score-vs-precomputed", f"{e}: score of the {label} {scm!r} vs the precomputed route's {scpre!r}", [("s", scpre)], [("s", scm)])
+    # copying must leave the original as it was
+    after = _gem_descr(m0.get_gemini())
+    if after != before:
+        fails.append({"key": "cloned:original-changed", "what": f"{e}: copying the estimator changed the original's GEMINI from {before} to {after}",
+                      "expected": str(before), "actual": str(after)})
+    return fails, info
+
+
+CHECKS = {"param_order": check_param_order, "cloned": check_cloned, "named_vs_precomputed": check_named_vs_precomputed, "callable": check_callable, "missing": check_missing,
           "documented": check_documented, "kauri": check_kauri, "reconfigured": check_reconfigured}
 
 
@@ -717,6 +880,105 @@ def gen_specs(ctx, rs):
             specs.append({"check": "kauri", "estimator": "Kauri", "name": k,
                           "common": {"max_clusters": int(rs.randint(2, 5)), "random_state": int(rs.randint(100)),
                                      "max_depth": [None, 2, 3][rs.randint(3)]}, "X": X.tolist(), "junk": J.tolist()})
+    # ---- the kinds below were added after the ones above: they draw from the generator last, so the cases above are unchanged
+    # (vi) parameter dictionaries in EVERY key order and with EVERY subset of the keys (kernels with several parameters),
+    #      the metric parameters scikit-learn accepts for the documented metrics (squared, for euclidean / l2)
+    import itertools
+
+    def pval(q):
+        return int(rs.randint(1, 4)) if q == "degree" else (round(float(rs.rand()) + 0.05, 3) if q == "gamma" else round(float(rs.rand()) * 2, 3))
+
+    def rand_items(name, nonempty=True):
+        keys = fw.KERNEL_PARAM_KEYS.get(name, [])
+        if not keys:
+            return None if rs.rand() < 0.5 else []
+        sub = [q for q in keys if rs.rand() < 0.6]
+        if nonempty and not sub:
+            sub = [keys[rs.randint(len(keys))]]
+        return [[q, pval(q)] for q in (sub[i] for i in rs.permutation(len(sub)))]
+
+    def pick_est(kind):
+        pool = (fw.MMD_EST if kind == "kernel" else fw.WASS_EST) + fw.GENERIC_EST
+        e = pool[rs.randint(len(pool))]
+        return e, ("instance" if e in fw.GENERIC_EST else "param")
+    orders = []
+    for name in ("poly", "polynomial", "sigmoid"):
+        keys = fw.KERNEL_PARAM_KEYS[name]
+        for r in range(1, len(keys) + 1):
+            for perm in itertools.permutations(keys, r):
+                orders.append(("kernel", name, [[q, pval(q)] for q in perm]))
+    for name in ("rbf", "laplacian", "chi2"):
+        orders.append(("kernel", name, [["gamma", pval("gamma")]]))
+    for name in ("euclidean", "l2"):
+        for sq in (True, False):
+            orders.append(("metric", name, [["squared", sq]]))
+    orders.append(("metric", ["l1", "manhattan", "cityblock", "cosine"][rs.randint(4)], []))
+    for _ in range(2 if thorough else 1):
+        for kind, name, items in orders:
+            e, via = pick_est(kind)
+            X, J = dat(name in fw.NONNEG_KERNELS, d=2 if e == "Douglas" else None)
+            bs = None if rs.rand() < 0.6 else int(rs.randint(3, 7))
+            specs.append({"check": "param_order", "estimator": e, "kind": kind, "name": name, "items": items, "ovo": bool(rs.randint(2)),
+                          "via": via, "common": common(e, rs, bs), "X": X.tolist(), "junk": J.tolist(),
+                          "path": bool(rs.rand() < 0.4)})
+    # (vii) copies of an estimator (clone, clone of clone, deepcopy, get_params round trips, pickle) behave like the original
+    def inst(cls, kw):
+        return {"gemini": {"gemini": {"cls": cls, "kw": kw}}}
+
+    def cloned(e, hyper, hp=None, kind=None, name=None, items=None, nonneg=False):
+        X, _ = dat(nonneg, d=2 if e == "Douglas" else None)
+        bs = None if rs.rand() < 0.6 else int(rs.randint(3, 7))
+        specs.append({"check": "cloned", "estimator": e, "hyper": hyper, "hyper_precomputed": hp, "kind": kind, "name": name,
+                      "items": items, "common": common(e, rs, bs), "X": X.tolist()})
+
+    def geo_instance(e, kind, name, items):
+        cls, key, pkey = (("MMDGEMINI", "kernel", "kernel_params") if kind == "kernel" else ("WassersteinGEMINI", "metric", "metric_params"))
+        ovo, eps = bool(rs.randint(2)), [1e-12, 1e-9, 1e-6][rs.randint(3)]
+        hp = None if name == "precomputed" else inst(cls, {"ovo": ovo, key: "precomputed", "epsilon": eps})
+        cloned(e, inst(cls, {"ovo": ovo, key: name, pkey: fw.O(items), "epsilon": eps}), hp, kind, name, items,
+               nonneg=name in fw.NONNEG_KERNELS)
+
+    def geo_param(e, kind, name, items):
+        key, pkey = ("kernel", "kernel_params") if kind == "kernel" else ("metric", "metric_params")
+        ovo = bool(rs.randint(2))
+        hp = None if name == "precomputed" else {"ovo": ovo, key: "precomputed"}
+        cloned(e, {"ovo": ovo, key: name, pkey: fw.O(items)}, hp, kind, name, items, nonneg=name in fw.NONNEG_KERNELS)
+    multi = ["poly", "polynomial", "sigmoid"]
+    knames = sorted(fw.KERNEL_PARAM_KEYS)
+    fdiv = ["KLGEMINI", "TVGEMINI", "HellingerGEMINI", "ChiSquareGEMINI"]
+    for _ in range(2 if thorough else 1):
+        for e in fw.GENERIC_EST:
+            geo_instance(e, "metric", ["euclidean", "l2"][rs.randint(2)], [["squared", True]])
+            k = multi[rs.randint(3)]
+            geo_instance(e, "kernel", k, rand_items(k))
+            other = rs.randint(7)
+            if other == 0:
+                geo_instance(e, "kernel", {"callable": list(fw.CALLABLES_X)[rs.randint(len(fw.CALLABLES_X))]}, None)
+            elif other == 1:
+                geo_instance(e, ["kernel", "metric"][rs.randint(2)], "precomputed", None)
+            elif other == 2:
+                k = knames[rs.randint(len(knames))]
+                geo_instance(e, "kernel", k, rand_items(k, nonempty=False))
+            elif other == 3:
+                geo_instance(e, "metric", ["l1", "manhattan", "cityblock", "cosine", "euclidean"][rs.randint(5)], [None, []][rs.randint(2)])
+            elif other == 4:
+                cloned(e, inst(fdiv[rs.randint(4)], {"ovo": bool(rs.randint(2)), "epsilon": [1e-12, 1e-6][rs.randint(2)]}))
+            elif other == 5:
+                cloned(e, {"gemini": fl.GEMINI_NAMES[rs.randint(len(fl.GEMINI_NAMES))]})
+            else:
+                cloned(e, {})
+        for e in fw.MMD_EST:
+            k = knames[rs.randint(len(knames))] if rs.rand() < 0.5 else multi[rs.randint(3)]
+            geo_param(e, "kernel", k, rand_items(k, nonempty=False))
+        for e in fw.WASS_EST:
+            if rs.rand() < 0.7:
+                geo_param(e, "metric", ["euclidean", "l2"][rs.randint(2)], [["squared", bool(rs.rand() < 0.8)]])
+            else:
+                geo_param(e, "metric", ["l1", "manhattan", "cityblock", "cosine"][rs.randint(4)], [None, []][rs.randint(2)])
+        k = multi[rs.randint(3)]
+        cloned("KernelRIM", {"base_kernel": k, "base_kernel_params": fw.O(rand_items(k))})
+        cloned("RIM", {})
+        cloned("SparseLinearMI", {})
     return specs
 
 
